@@ -73,7 +73,10 @@ def run(ctx):
                ({"ca_cert_path": "/x/cas"}, dict(want, default_certs=False, locations=(None, "/x/cas")), "ca_cert_path"),
                ({"server_hostname": "other.test"}, dict(want, server_hostname="other.test"), "server_hostname"),
                ({"ciphers": "HIGH"}, want, "ciphers"), ({"ecdh_curve": "prime256v1"}, want, "ecdh_curve"),
-               ({"cert_reqs": ssl.CERT_REQUIRED}, want, "cert_reqs=REQUIRED")]
+               ({"cert_reqs": ssl.CERT_REQUIRED}, want, "cert_reqs=REQUIRED"),
+               # a protocol constant whose fresh context does NOT verify by default: the library must still switch both checks on
+               ({"ssl_version": ssl.PROTOCOL_TLSv1_2}, want, "ssl_version=TLSv1_2"), ({"ssl_version": ssl.PROTOCOL_TLS}, want, "ssl_version=TLS"),
+               ({"ssl_version": ssl.PROTOCOL_TLSv1_2, "ciphers": "HIGH"}, want, "ssl_version+ciphers")]
     for opt, w, name in singles:
         got = plan_of(opt)
         T.case(("single", name), bucket="direct", sample={"sslopt": str(opt), "plan": got})
